@@ -173,3 +173,22 @@ Proof.
     destruct (acct_eqb a (AUser 2)); [lia|]. destruct (acct_eqb a AMod); lia.
   - intros k. cbn. unfold bal, aval. cbn. destruct k as [[h e] a]. cbn. lia.
 Qed.
+
+(* ---------------------------------------------------------------------------------------------
+   Tie to the code by translation + proof: the functions below are GENERATED on every run from /repo's
+   current Go source (translator/gen_gofuncs.go -> Gen/GoPrice.v); the theorems say that the hand-written model the
+   property theorems above are about computes what the generated function computes, for all arguments. *)
+From Coq Require Import String.
+From JK Require Import Base.GoSem Gen.GoPrice Proofs.GoTiePrice.
+
+(* keeper.GetStorageCost and GetStorageCostKbsWithPrice are the model's price functions, for every price
+   parameter, oracle price, size and duration (a zero oracle price is the Dec.Quo panic) *)
+Theorem C04_code_tie_price_functions :
+  forall ppt jkl amount hours,
+    gen_GetStorageCost ppt jkl amount hours = of_option (storage_cost ppt jkl amount hours) /\
+    gen_GetStorageCostKbsWithPrice ppt jkl amount hours = of_option (storage_cost_kbs ppt jkl amount hours).
+Proof.
+  intros. exact (conj (gen_GetStorageCost_model ppt jkl amount hours)
+                      (gen_GetStorageCostKbsWithPrice_model ppt jkl amount hours)).
+Qed.
+Print Assumptions C04_code_tie_price_functions.
